@@ -154,6 +154,35 @@ EXTS = r"""
 """
 
 
+AUTOSERIAL = r"""
+    use rcgen::*;
+    // 48 fresh keys: the automatic serial must be positive, at most 20 octets, and the truncated SHA-256 of the public key bytes
+    for _ in 0..48 {
+        let key = KeyPair::generate().unwrap();
+        let p = CertificateParams::new(vec!["serial.example".to_string()]).unwrap();
+        assert!(p.serial_number.is_none());
+        let cert = p.self_signed(&key).unwrap();
+        let der: &[u8] = cert.der();
+        // Certificate SEQ { TBS SEQ { [0] version (5 bytes), serial INTEGER ...
+        let h1 = if der[1] < 0x80 { 2 } else { 2 + (der[1] & 0x7f) as usize };
+        let tbs = &der[h1..];
+        let h2 = if tbs[1] < 0x80 { 2 } else { 2 + (tbs[1] & 0x7f) as usize };
+        let body = &tbs[h2..];
+        assert_eq!(&body[..5], &[0xa0, 3, 2, 1, 2]);
+        assert_eq!(body[5], 2, "serial INTEGER tag");
+        let len = body[6] as usize;
+        let content = &body[7..7 + len];
+        assert!(len >= 1 && len <= 20, "automatic serial has {} content octets", len);
+        assert!(content[0] & 0x80 == 0, "automatic serial is negative");
+        assert!(content.iter().any(|b| *b != 0), "automatic serial is zero");
+        let mut want = ring::digest::digest(&ring::digest::SHA256, key.public_key_raw()).as_ref()[..20].to_vec();
+        want[0] &= 0x7f;
+        while want.len() > 1 && want[0] == 0 && want[1] & 0x80 == 0 { want.remove(0); }
+        assert_eq!(content, &want[..], "automatic serial is not the truncated hash of the public key");
+    }
+"""
+
+
 def program(cex: dict) -> str:
     op = cex.get("op")
     pre = ", ".join(f"({t}, {v})" for (t, v) in cex.get("pre", []))
@@ -211,6 +240,8 @@ def program(cex: dict) -> str:
         body = SIGNING
     if op == "ext-presence":
         body = EXTS
+    if op == "auto-serial":
+        body = AUTOSERIAL
     return PRELUDE + "fn main() {\n" + body + "    println!(\"replay-ok\");\n}\n"
 
 
